@@ -113,6 +113,8 @@ def run(repo: Repo, rep: Report, tier: str) -> None:
     check_survival(repo, rep, rm, "escape")
     from ..delegate import delegate as _delegate
     rep.rule("pdv-not-dropped", "every PDV of a received P-DATA-TF is classified and used, or the PDU is reported invalid (C15's reader rules)")
+    rep.rule("malformed-is-invalid", "bytes that are not a well-formed item fail the decode of the PDU, they are not skipped (C01's evaluation of the item generators)")
+    _delegate(repo, rep, tier, "C01", ("decoder-complete",), "malformed-is-invalid", "a malformed PDU is neither decoded into a value that re-encodes to the same bytes nor classified as invalid: the stray bytes vanish and the PDU is processed as if it conformed")
     rep.rule("state-per-message", "what the DIMSE provider accumulates while receiving a message is reset with the message (C15's message-reset)")
     _delegate(repo, rep, tier, "C15", ("message-reset",), "state-per-message", "state left over from earlier messages makes the receiver report a conformant P-DATA-TF as invalid (Evt19, A-ABORT) after enough traffic on one association")
     _delegate(repo, rep, tier, "C15", ("reader-bits", "reader-complete"), "pdv-not-dropped", "part of a conformant P-DATA-TF (PS3.8 allows several PDVs in one PDU) is neither decoded nor reported as invalid: the message the peer sent never completes or is reassembled without a fragment, with no Evt19 and no log entry")
